@@ -182,14 +182,23 @@ void DNS::add_query(const query& query) {
     stream.write_be<uint16_t>(query.query_class());
 
     uint32_t offset = static_cast<uint32_t>(new_str.size()), threshold = answers_idx_;
-    update_records(answers_idx_, answers_count(), threshold, offset);
-    update_records(authority_idx_, authority_count(), threshold, offset);
-    update_records(additional_idx_, additional_count(), threshold, offset);
-    records_data_.insert(
-        records_data_.begin() + threshold,
+    // Work on copies so this object is left untouched if the stored records are malformed
+    byte_array new_data(records_data_);
+    uint32_t new_answers_idx = answers_idx_,
+             new_authority_idx = authority_idx_,
+             new_additional_idx = additional_idx_;
+    update_records(new_data, new_answers_idx, answers_count(), threshold, offset);
+    update_records(new_data, new_authority_idx, authority_count(), threshold, offset);
+    update_records(new_data, new_additional_idx, additional_count(), threshold, offset);
+    new_data.insert(
+        new_data.begin() + threshold,
         new_str.begin(),
         new_str.end()
     );
+    records_data_.swap(new_data);
+    answers_idx_ = new_answers_idx;
+    authority_idx_ = new_authority_idx;
+    additional_idx_ = new_additional_idx;
     header_.questions = Endian::host_to_be(static_cast<uint16_t>(questions_count() + 1));
 }
 
@@ -230,21 +239,26 @@ void DNS::add_record(const resource& resource, const sections_type& sections) {
     if (resource.query_type() == MX) {
         offset += sizeof(uint16_t);
     }
+    // Work on copies so this object is left untouched if the stored records are malformed
+    byte_array new_data(records_data_);
+    std::vector<uint32_t> new_starts(sections.size());
     for (size_t i = 0; i < sections.size(); ++i) {
+        new_starts[i] = *sections[i].first;
         update_records(
-            *sections[i].first, 
+            new_data,
+            new_starts[i], 
             sections[i].second, 
             static_cast<uint32_t>(threshold),
             static_cast<uint32_t>(offset)
         );
     }
     
-    records_data_.insert(
-        records_data_.begin() + threshold,
+    new_data.insert(
+        new_data.begin() + threshold,
         offset,
         0
     );
-    OutputMemoryStream stream(&records_data_[0] + threshold, offset);
+    OutputMemoryStream stream(&new_data[0] + threshold, offset);
     stream.write(buffer.begin(), buffer.end());
     stream.write_be(resource.query_type());
     stream.write_be(resource.query_class());
@@ -264,6 +278,10 @@ void DNS::add_record(const resource& resource, const sections_type& sections) {
     }
     else {
         stream.write(resource.data().begin(), resource.data().end());
+    }
+    records_data_.swap(new_data);
+    for (size_t i = 0; i < sections.size(); ++i) {
+        *sections[i].first = new_starts[i];
     }
 }
 
@@ -515,39 +533,64 @@ void DNS::convert_records(const uint8_t* ptr,
     }
 }
 
-// no length checks, records should already be valid
-uint8_t* DNS::update_dname(uint8_t* ptr, uint32_t threshold, uint32_t offset) {
-    while (*ptr != 0) {
-        if ((*ptr & 0xc0) == 0xc0) {
+// Rewrites the compression pointer that ends the name at ptr (if there is one and 
+// it points at or after the threshold) and returns a pointer to the first byte 
+// after the name. The name has to end before end.
+uint8_t* DNS::update_dname(uint8_t* ptr, 
+                           const uint8_t* end, 
+                           uint32_t threshold, 
+                           uint32_t offset) {
+    while (true) {
+        if (TINS_UNLIKELY(ptr >= end)) {
+            throw malformed_packet();
+        }
+        const uint8_t value = *ptr;
+        if (value == 0) {
+            // The name ended with a null label rather than with a pointer: skip the null byte
+            return ptr + 1;
+        }
+        if ((value & 0xc0) == 0xc0) {
+            if (TINS_UNLIKELY(end - ptr < 2)) {
+                throw malformed_packet();
+            }
             uint16_t index;
             memcpy(&index, ptr, sizeof(uint16_t));
             index = Endian::be_to_host(index) & 0x3fff;
             // The pointer is an offset from the start of the message, the threshold 
             // is an offset into records_data_. The bytes at and after the threshold move.
             if (index >= threshold + sizeof(dns_header)) {
+                // A pointer can only hold 14 bits
+                if (TINS_UNLIKELY(index + offset > 0x3fff)) {
+                    throw malformed_packet();
+                }
                 index = Endian::host_to_be<uint16_t>((index + offset) | 0xc000);
                 memcpy(ptr, &index, sizeof(uint16_t));
             }
             return ptr + sizeof(uint16_t);
         }
-        else {
-            ptr += *ptr + 1;
+        // high order two bits of the first octet of a label must be either 11 or 00
+        if (TINS_UNLIKELY((value & 0xc0) != 0 || end - ptr < value + 1)) {
+            throw malformed_packet();
         }
+        ptr += value + 1;
     }
-    // The name ended with a null label rather than with a pointer: skip the null byte
-    return ptr + 1;
 }
 
 // Updates offsets in domain names inside records.
-// No length checks, records are already valid.
-void DNS::update_records(uint32_t& section_start, 
+void DNS::update_records(byte_array& data,
+                         uint32_t& section_start, 
                          uint32_t num_records, 
                          uint32_t threshold, 
                          uint32_t offset) {
-    if (section_start < records_data_.size()) {
-        uint8_t* ptr = &records_data_[section_start];
+    if (section_start < data.size()) {
+        uint8_t* ptr = &data[section_start];
+        const uint8_t* end = &data[0] + data.size();
         for (uint32_t i = 0; i < num_records; ++i) {
-            ptr = update_dname(ptr, threshold, offset);
+            ptr = update_dname(ptr, end, threshold, offset);
+            // Type (2), class (2), TTL (4) and data size (2)
+            if (TINS_UNLIKELY(end - ptr < 10)) {
+                throw malformed_packet();
+            }
             uint16_t type;
             memcpy(&type, ptr, sizeof(uint16_t));
             type = Endian::be_to_host(type);
@@ -556,12 +599,19 @@ void DNS::update_records(uint32_t& section_start,
             memcpy(&size, ptr, sizeof(uint16_t));
             size = Endian::be_to_host(size);
             ptr += sizeof(uint16_t);
+            if (TINS_UNLIKELY(end - ptr < size)) {
+                throw malformed_packet();
+            }
+            const uint8_t* data_end = ptr + size;
+            uint8_t* name_ptr = ptr;
             if (type == MX) {
-                ptr += sizeof(uint16_t);
-                size -= sizeof(uint16_t);
+                if (TINS_UNLIKELY(size < sizeof(uint16_t))) {
+                    throw malformed_packet();
+                }
+                name_ptr += sizeof(uint16_t);
             }
             if (contains_dname(type)) {
-                update_dname(ptr, threshold, offset);
+                update_dname(name_ptr, data_end, threshold, offset);
             }
             ptr += size;
         }
